@@ -4,7 +4,13 @@ From UV Require Import Base.Bytes Model.WireTypes Model.Codec Model.Interp Model
   Spec.WireSpec Spec.Protocol Spec.ApiSpec Spec.ReplySpec Spec.RecvSpec.
 Open Scope N_scope.
 
-Inductive case10 := CListen (ds : list (list N)) (obs : list (option (list fval))).
+Inductive case10 :=
+| CListen (ds : list (list N)) (obs : list (option (list fval)))           (* one datagram in flight at a time *)
+| CListenBurst (ds : list (list N)) (obs : list (option (list fval))).     (* back to back from one socket *)
+
+(* in a burst OnError (called by the goroutine that reads the socket) may overtake the OnEvent of an earlier datagram
+   (called by the dispatching goroutine): the events are compared in order, the errors by number *)
+Definition events_of (l : list (option (list fval))) : list (option (list fval)) := filter (fun o => match o with Some _ => true | None => false end) l.
 
 Definition cb_eqb (a b : option (list fval)) : bool := opt_eqb fvals_eqb a b.
 Fixpoint cbs_eqb (a b : list (option (list fval))) : bool :=
@@ -17,6 +23,9 @@ Fixpoint cbs_eqb (a b : list (option (list fval))) : bool :=
 Definition model_ok10 (c : case10) : bool :=
   match c with
   | CListen ds obs => cbs_eqb (map (fun d => match listen_step d with Ok r => r | _ => None end) ds) obs
+  | CListenBurst ds obs =>
+      let m := map (fun d => match listen_step d with Ok r => r | _ => None end) ds in
+      cbs_eqb (events_of m) (events_of obs) && Nat.eqb (length m) (length obs)
   end.
 
 (* C10 from the property text: a well-formed event (64 bytes, protocol id 0x17 or 0x19, function 0x20, non-zero serial
@@ -47,4 +56,21 @@ Fixpoint callbacks_ok (ds : list (list N)) (obs : list (option (list fval))) : b
   | _, _ => false
   end.
 
-Definition spec_ok10 (c : case10) : bool := match c with CListen ds obs => callbacks_ok ds obs end.
+(* burst: the delivered events, in order, are the statuses of the valid events sent, in order; one callback per datagram *)
+Fixpoint events_ok (ds : list (list N)) (evs : list (option (list fval))) : bool :=
+  match ds with
+  | [] => match evs with [] => true | _ => false end
+  | d :: ds' =>
+      if definitely_good d then match evs with e :: evs' => cb_eqb e (Some (event_status_spec d)) && events_ok ds' evs' | [] => false end
+      else if definitely_bad d then events_ok ds' evs
+      else match evs with
+           | e :: evs' => (cb_eqb e (Some (event_status_spec d)) && events_ok ds' evs') || events_ok ds' evs
+           | [] => events_ok ds' []
+           end
+  end.
+
+Definition spec_ok10 (c : case10) : bool :=
+  match c with
+  | CListen ds obs => callbacks_ok ds obs
+  | CListenBurst ds obs => events_ok ds (events_of obs) && Nat.eqb (length ds) (length obs)
+  end.
